@@ -1,7 +1,8 @@
-"""C17 reference validator: the `jsonschema` package (interpreter python3-vt, no hugr deps).
+"""C17 reference validator: the `jsonschema` package (interpreter python3-vt, which has no hugr deps).
 
-argv: schema file, requests file (JSON list of {"entry": name, "doc": json}), output file (JSON list of bool)
-A document is validated against {"$ref": "#/$defs/<entry>", "$defs": <the file's $defs>}, draft 2020-12.
+argv: schema file.  stdin: one JSON object per line {"entry": name, "doc": json}; stdout: "true"/"false" per line
+("ready" first).  A document is validated against {"$ref": "#/$defs/<entry>", "$defs": <the file's $defs>},
+draft 2020-12 (the dialect pydantic emits).
 """
 import json
 import sys
@@ -11,15 +12,14 @@ import jsonschema
 
 def main():
     schema = json.load(open(sys.argv[1]))
-    reqs = json.load(open(sys.argv[2]))
     cache = {}
-    out = []
-    for r in reqs:
+    print("ready", flush=True)
+    for line in sys.stdin:
+        r = json.loads(line)
         e = r["entry"]
         if e not in cache:
             cache[e] = jsonschema.Draft202012Validator({"$ref": "#/$defs/" + e, "$defs": schema["$defs"]})
-        out.append(cache[e].is_valid(r["doc"]))
-    json.dump(out, open(sys.argv[3], "w"))
+        print("true" if cache[e].is_valid(r["doc"]) else "false", flush=True)
 
 
 main()
